@@ -110,6 +110,18 @@ func propC20(w *World, r *Report) {
 					if e.termOf(x.Call.Value).String() == fClock {
 						clock++
 					}
+				default:
+					// any other output call of package log (Printf, Println, Fatal...) with the message among its
+					// arguments does not print it unmodified: a format-interpreting call rewrites '%' sequences
+					if cn := calleeName(x); strings.HasPrefix(cn, "log.") || strings.HasPrefix(cn, "log.Logger.") {
+						for _, a := range x.Call.Args {
+							if strings.Contains(e.termOf(a).String(), msg) {
+								r.Fail("G1", name+": the message is emitted unmodified (log.Print of the message itself)", w.InstrPos(x), "the message is handed to "+cn+": it is re-interpreted (format verbs) or decorated instead of printed verbatim", "")
+								prints++
+								printedArg = "via " + cn
+							}
+						}
+					}
 				}
 			case *ssa.Store:
 				if fa, ok := x.Addr.(*ssa.FieldAddr); ok && isPtrTo(fa.X.Type(), T) {
